@@ -1284,6 +1284,14 @@ func (broker *Broker) startValidate(wg *sync.WaitGroup) {
 func (broker *Broker) finish(file sts.Polled) {
 	switch {
 	case file.Waiting() || file.Received():
+		if cached := broker.Conf.Cache.Get(file.GetName()); cached != nil &&
+			cached.GetHash() != "" && file.GetHash() != "" &&
+			cached.GetHash() != file.GetHash() {
+			// The answer is about a version that has been replaced in the
+			// cache since it was sent; it says nothing about the current one
+			broker.info("Ignoring confirmation of a replaced version:", file.GetName())
+			return
+		}
 		log.Debug("Validated:", file.GetName())
 		// Make marking done and file removal a single transaction so that we
 		// keep the cache in sync with the file system.  Without it, it's
